@@ -47,10 +47,7 @@ def dispatch_always_decodes(ctx, rule, exempt=()):
         return
     sw = sws[0]
     names = _c10.switch_variants(pf, sw)
-    errb = set()
-    for d in q.defs_in(pf, pf.cfg.reach):
-        if d[0] == 0 and not d[1] and all(q.is_err_term(a) for a in alts(d[2])):
-            errb.add(d[3])
+    errb = q.error_blocks(pf)
     n = 0
     for v, s in pf.blocks[sw]['term']['targets']:
         kind = names.get(v)
